@@ -11,6 +11,7 @@
    - block difficulties below 2^192 (a header above cannot pass the PoW check). *)
 From Coq Require Import NArith List.
 From LC Require Import Matching Difficulty LastStateProof MatchingProofs DifficultyProofs2 LastStateProofProofs ExecPanicProofs HashesUpdate HashesUpdateProofs.
+From LC Require Filters FiltersChecked FiltersPanicProofs.
 Import ListNotations.
 Open Scope N_scope.
 
@@ -78,3 +79,27 @@ Theorem C10_block_filter_hashes_never_panics :
   forall w start parent hs site, process w start parent hs <> Panic site.
 Proof. exact process_no_panic. Qed.
 Print Assumptions C10_block_filter_hashes_never_panics.
+
+(* the BlockFilters handler (filter protocol): Model/FiltersChecked.v writes every u64 / u32 / usize operation, cast, expect and
+   slice index of BlockFiltersProcess::execute, check_filters_data and the helpers in peers.rs as the checked operation it is.
+   For every message (any start number, any filters, any block hashes) and every peer state the handler returns, provided the
+   client's OWN state is within range: a positive check point interval, filter progress and message length below 2^32 check point
+   intervals, indices fitting their u32, and the stored check point in front of the cached range (written by finalization).
+   Outside that range the unwinding is real (Example below: filter progress u64::MAX, reachable only through the user's own
+   set_scripts, not through a peer). *)
+Theorem C10_block_filters_never_panics :
+  forall w m, FiltersPanicProofs.in_range w m -> is_panic (FiltersChecked.execute_chk w m) = false.
+Proof. exact FiltersPanicProofs.block_filters_never_panics. Qed.
+Print Assumptions C10_block_filters_never_panics.
+
+(* ... and there the checked model computes what the unbounded model of C06 computes, so the C06 theorems speak about it *)
+Theorem C10_block_filters_checked_model_is_the_C06_model :
+  forall w m, FiltersPanicProofs.in_range w m -> FiltersChecked.execute_chk w m = Filters.execute w m.
+Proof. exact FiltersPanicProofs.execute_chk_eq. Qed.
+Print Assumptions C10_block_filters_checked_model_is_the_C06_model.
+
+(* non-vacuity: a client 3 blocks into the second check point interval, with cached hashes, is within range *)
+Example C10_block_filters_range_example :
+  FiltersPanicProofs.in_range (Filters.mkFW [(1, 0)] (Some (Some 7)) 2003 false true 2000 3 33 1 [41; 42; 43; 44] (Some 40) [51] [] [])
+           (Filters.mkMsg 2004 [1; 2] [8; 9]).
+Proof. constructor; [reflexivity | vm_compute; discriminate | vm_compute; discriminate | vm_compute; discriminate | reflexivity | intros _; discriminate]. Qed.
